@@ -78,6 +78,7 @@ type Script struct {
 	Pre   int      `json:"pre"`   // other additional records in front of the OPT (0..2)
 	Post  int      `json:"post"`  // other additional records behind the OPT (0..2)
 	Fill  string   `json:"fill"`  // "a": fill the answer with A records (16 octets each when compressed)
+	Delay int      `json:"delay"` // ms the terminal upstream waits before it answers
 }
 
 type Node struct {
@@ -561,6 +562,9 @@ func (u *terminal) Exec(ctx context.Context, qCtx *query_context.Context) error 
 		t.events = append(t.events, Event{"ev": "Seen", "nopt": n, "fresh": cs.fresh(last), "opts": tokensOf(last), "via": "terminal"})
 	}
 	cs.mu.Unlock()
+	if u.script.Delay > 0 {
+		time.Sleep(time.Duration(u.script.Delay) * time.Millisecond)
+	}
 	switch u.script.C {
 	case "err":
 		return errScripted
